@@ -59,8 +59,12 @@ def draw_program(draw):
         body = []
         nloc = nargs
         for _ in range(draw(st.integers(1, 4))):
-            k = draw(st.integers(0, 6))
-            if k <= 2:
+            k = draw(st.integers(0, 7))
+            if k == 7:
+                # the same product computed twice and pinned together by `reps` identical assertions
+                body.append(["pin", draw(st.integers(0, nloc - 1)), draw(st.integers(0, nloc - 1)), draw(st.integers(0, 2))])
+                nloc += 2
+            elif k <= 2:
                 body.append(["bin", draw(st.sampled_from("*+-*")), draw(st.integers(0, nloc - 1)), draw(st.integers(0, nloc - 1))])
                 nloc += 1
             elif k == 3:
@@ -86,14 +90,24 @@ def draw_program(draw):
                       "rshape": (draw(st.sampled_from(["tuple", "list"])) if nres > 1 else "single") if nres else draw(st.sampled_from(["none", "plainint"]))})
     # optional second body under an existing name
     clash = None
-    if draw(st.integers(0, 5)) == 0:
+    if draw(st.integers(0, 3)) == 0:
         base = draw(st.integers(0, nfun - 1))
         f = json.loads(json.dumps(funcs[base]))
-        f["body"] = f["body"] + [["addc", draw(st.integers(0, f["nargs"] - 1)), draw(st.integers(6, 9))]]
-        if f["nres"]:
-            f["res"] = f["res"][:-1] + [f["nargs"] + sum(1 if s[0] != "call" else funcs[s[1]]["nres"] for s in f["body"]) - 1]
+        pins = [i for i, s_ in enumerate(f["body"]) if s_[0] == "pin"]
+        if not pins and draw(st.booleans()):
+            stmt_ = ["pin", draw(st.integers(0, f["nargs"] - 1)), draw(st.integers(0, f["nargs"] - 1)), draw(st.integers(0, 2))]
+            funcs[base]["body"].append(stmt_)
+            f["body"].append(list(stmt_))
+            pins = [len(f["body"]) - 1]
+        if pins and draw(st.integers(0, 3)) != 0:
+            # the other body differs only in HOW OFTEN one identical equation is stated (1-4 more copies)
+            f["body"][draw(st.sampled_from(pins))][3] += draw(st.integers(1, 4))
         else:
-            f["body"] = f["body"] + [["bin", "*", 0, 0]]
+            f["body"] = f["body"] + [["addc", draw(st.integers(0, f["nargs"] - 1)), draw(st.integers(6, 9))]]
+            if f["nres"]:
+                f["res"] = f["res"][:-1] + [f["nargs"] + sum(2 if s[0] == "pin" else 1 if s[0] != "call" else funcs[s[1]]["nres"] for s in f["body"]) - 1]
+            else:
+                f["body"] = f["body"] + [["bin", "*", 0, 0]]
         clash = {"base": base, "func": f}
     main = []
     nv = 0
@@ -124,6 +138,12 @@ def draw_program(draw):
             main.append(["call", fi, [draw(st.integers(0, nv - 1)) for _ in range(f["nargs"])], use_clash])
             nv += f["nres"]
             ncalls += 1
+    if clash is not None and draw(st.booleans()):
+        # make sure both bodies registered under the name are actually called
+        f = funcs[clash["base"]]
+        for alt in (False, True):
+            main.append(["call", clash["base"], [draw(st.integers(0, nv - 1)) for _ in range(f["nargs"])], alt])
+            nv += f["nres"]
     if draw(st.booleans()):
         main.append(["bin", "*", draw(st.integers(0, nv - 1)), draw(st.integers(0, nv - 1))])
     return {"funcs": funcs, "clash": clash, "main": main}
@@ -152,6 +172,12 @@ def render(prog):
             elif s[0] == "mulc":
                 L.append("    %s = %s * (%d)" % (nm, loc[s[1]], s[2]))
                 loc.append(nm)
+            elif s[0] == "pin":
+                nm2 = "t%d" % (len(loc) + 1)
+                L.append("    %s = %s * %s" % (nm, loc[s[1]], loc[s[2]]))
+                L.append("    %s = %s * %s" % (nm2, loc[s[1]], loc[s[2]]))
+                L.append("    for _ in range(%d): %s.assert_eq(%s)" % (s[3], nm, nm2))
+                loc.extend([nm, nm2])
             else:
                 g = funcs[s[1]]
                 names = ["t%d" % (len(loc) + k) for k in range(g["nres"])]
@@ -218,7 +244,7 @@ def run_child(src, tmp):
         os.remove(os.path.join(tmp, f))
     open(os.path.join(tmp, "prog.py"), "w").write(src)
     envv = dict(os.environ)
-    envv.update({"QAPTOOLS_BIN": QAPBIN, "PYTHONPATH": backends.REPO, "PYTHONDONTWRITEBYTECODE": "1", "PYTHONHASHSEED": "0"})
+    envv.update({"QAPTOOLS_BIN": QAPBIN, "PYTHONPATH": backends.REPO + core.COVPATH, "PYTHONDONTWRITEBYTECODE": "1", "PYTHONHASHSEED": "0"})
     envv.pop("PYSNARK_BACKEND", None)
     r = subprocess.run([sys.executable, "prog.py"], cwd=tmp, env=envv, capture_output=True, text=True, timeout=120,
                        start_new_session=True)
@@ -230,6 +256,11 @@ def analyse(prog, tmp, r):
     info = {"sub_with_cons": False, "after_last_pub": False}
     rd = lambda f: open(os.path.join(tmp, f)).read()
     if not os.path.exists(os.path.join(tmp, "trace.json")):
+        if "Exceeds the limit" in r.stderr and "integer string conversion" in r.stderr:
+            # repeated products of unreduced 200-bit witnesses passed CPython's int->str digit limit: a limit of the
+            # interpreter on the generated values, not a statement about the files
+            info["skipped"] = "int-str-limit"
+            return None, info
         return "the program itself failed: %s" % (r.stderr.strip().splitlines()[-1:] or [r.stdout.strip()[-200:]]), info
     tr = json.load(open(os.path.join(tmp, "trace.json")))
     log, calls = tr["log"], tr["calls"]
@@ -403,6 +434,8 @@ def shard(seed, n_examples):
                 labels.append("two-bodies-one-name")
             if info.get("inconsistent_reported"):
                 labels.append("inconsistency-reported")
+            if info.get("skipped"):
+                stats.inconclusive[info["skipped"]] += 1
             if info["after_last_pub"]:
                 labels.append("constraint-after-last-public-value")
             stats.case(prog if nt else None, nt, labels)
